@@ -9,6 +9,8 @@ def run(res, args):
     res.assumptions = ["NewEnum is observed on [-70000,70000] and +-300 around 2^16, 2^24, +-2^31, +-2^32, 2^40, 2^62, 2^63-1, -2^63 (the int domain itself cannot be enumerated); the typed constructors on all 256 bytes",
                        "the list of factories is checked against a go/parser scan of /repo/veconst on every run"]
     ok = tables.prepare(res, "C14", THEOREMS)
+    from lib import enumgen
+    enumgen.enum_obligations(res, "C14")
     obs = open(common.GEN + "/ObsEnum.v").read()
     n = len(re.findall(r"mkEnumObs", obs))
     dom = re.findall(r"(?:true|false) (\d+);?\n", obs)
